@@ -26,7 +26,7 @@ Inductive asks_for : bs -> factor -> Prop :=
 
 (* The operator-required authentication.  A hardware-token session always qualifies; an entry
    naming a second factor is met by a credential carrying that factor; the entry "password" is
-   the weakest bar: any admitted credential meets it (reading fixed in DESIGN, F18). *)
+   the weakest bar: any credential checkAuth accepts meets it (reading fixed in DESIGN, F18). *)
 Definition qualifies (cfg : list bs) (level : N) : Prop :=
   carries level FU2F \/ In sPassword cfg \/
   exists s f, In s cfg /\ asks_for s f /\ carries level f.
